@@ -609,6 +609,49 @@ def known_truth(c):
     return None
 
 
+DECIDER = None        # set by the interpreter: callable(cond) -> True / False / None using the current path's hypotheses
+
+
+def resolve_dim(t):
+    """Simplify an integer (shape) term that contains if-then-else by deciding its conditions with the path solver.
+    Keeps array shapes syntactically canonical (e.g. the clamped slice length max(min(n,n)-min(1,n),0) becomes n-1)."""
+    t = N(t)
+    if not is_z3(t) or DECIDER is None or CUR is None:
+        return t
+    memo = CUR.cache.setdefault('dim-memo', {})
+    hit = memo.get(t.get_id())
+    if hit is not None:
+        return hit[1]
+    orig = t
+    for _ in range(8):
+        conds = []
+        seen = set()
+
+        def walk(e):
+            if e.get_id() in seen or len(conds) >= 6:
+                return
+            seen.add(e.get_id())
+            if z3.is_app(e) and e.decl().kind() == z3.Z3_OP_ITE:
+                conds.append(e.arg(0))
+            for c in e.children():
+                walk(c)
+        walk(t)
+        if not conds:
+            break
+        subs = []
+        for c in conds:
+            d = DECIDER(c)
+            if d is not None:
+                subs.append((c, z3.BoolVal(d)))
+        if not subs:
+            break
+        t = N(z3.simplify(z3.substitute(t, *subs)))
+        if not is_z3(t):
+            break
+    memo[orig.get_id()] = (orig, t)
+    return t
+
+
 def resolve(t):
     """Rewrite term t with the propositional flags already decided on the current path (then simplify)."""
     if CUR is None or not is_z3(t) or not CUR.known:
